@@ -485,7 +485,7 @@ def gen_tlp(repo) -> Tuple[str, List[str]]:
                 fail(n, f"construct in {cls}.{name}")
         fn = TFn(w, cls, f, rty, assumptions, False)
         try:
-            body = fn.translate(params, None)
+            body = P.with_fallback(f, lambda fd: TFn(w, cls, fd, rty, assumptions, False).translate(params, None))
         except Unsupported as ex:
             body = P.function_stub("TlpGen.v", f"{cls}.{name}", ex)
         ps = [(cid(n), t) for n, t, _ in params]
